@@ -4,9 +4,13 @@ use crate::prng::Rng;
 use crate::refimpl::attrs::{Kind, RefAddr, RefVal};
 use crate::refimpl::parse::RefCreds;
 
-const CHARS: [&str; 24] = [
+const CHARS: [&str; 40] = [
     "a", "Z", "0", ":", " ", "\u{0}", "\u{7f}", "'", "\"", "\\", "é", "ß", "\u{7ff}", "€", "\u{800}", "\u{ffff}",
     "日", "\u{10000}", "😀", "\u{10ffff}", "-", ".", "%", "\n",
+    // characters that string preparation profiles (SASLprep, PRECIS OpaqueString), Unicode
+    // normalisation or case folding would map to something else: the key is made of the bytes as given
+    "\u{a0}", "\u{1680}", "\u{2003}", "\u{202f}", "\u{3000}", "\u{ad}", "\u{200d}", "e\u{301}", "\u{fb01}", "\u{ff21}", "İ", "ı",
+    "\u{212b}", "\u{1e9e}", "\u{2028}", "\u{feff}",
 ];
 
 /// A UTF-8 string of exactly `n` bytes.
@@ -93,6 +97,13 @@ pub fn near_miss_creds(rng: &mut Rng, c: &RefCreds) -> Vec<RefCreds> {
             4 => format!(" {s}"),
             5 => s.to_lowercase(),
             6 => String::new(),
+            // what a string preparation step would turn the text into, and the other way round
+            10 => s.replace(' ', "\u{a0}"),
+            11 => s.replace(['\u{a0}', '\u{1680}', '\u{2003}', '\u{202f}', '\u{3000}'], " "),
+            12 => s.replace("e\u{301}", "é").replace('\u{212b}', "Å").replace('\u{ff21}', "A").replace('\u{fb01}', "fi"),
+            13 => s.replace(['\u{ad}', '\u{200d}', '\u{feff}'], ""),
+            14 => format!("{s}\u{a0}"),
+            15 => format!("{s}\u{3000}"),
             // the first 64 bytes only (one hash block), and the same with another tail
             8 => s.chars().take(64).collect(),
             9 => format!("{}{}", s.chars().take(64).collect::<String>(), "~tail"),
@@ -101,14 +112,14 @@ pub fn near_miss_creds(rng: &mut Rng, c: &RefCreds) -> Vec<RefCreds> {
     };
     match c {
         RefCreds::Short(p) => {
-            for h in 0..10 {
+            for h in 0..16 {
                 out.push(RefCreds::Short(tweak(p, h)));
             }
             out.push(RefCreds::Long(String::new(), String::new(), p.clone()));
             out.push(RefCreds::Long("user".into(), "realm".into(), p.clone()));
         }
         RefCreds::Long(u, r, p) => {
-            for h in 0..10 {
+            for h in 0..16 {
                 out.push(RefCreds::Long(u.clone(), r.clone(), tweak(p, h)));
                 out.push(RefCreds::Long(tweak(u, h), r.clone(), p.clone()));
                 out.push(RefCreds::Long(u.clone(), tweak(r, h), p.clone()));
